@@ -256,7 +256,11 @@ func checkC06(c C06Case, o *vcore.Obs) error {
 					val := e.Val.Bytes()
 					if e.Del {
 						fl |= 1
-						val = nil
+						if e.Ext%2 == 0 || len(val) > 64 {
+							val = nil
+						}
+						// (else: the application flagged the entry as deleted and left its payload in place: the image
+						// carries "exactly the stored application value" all the same)
 					}
 					ext := make([]byte, 8*e.Ext)
 					for i := range ext {
